@@ -36,6 +36,7 @@ def dispatch (line : String) : String :=
       else if op == "calls" || op == "hostile" then Driver.C10.handleCalls op args
       else if op == "pm" then Driver.C18.handle args
       else if op == "pm.compile" then Driver.C18.handleCompile args
+      else if Driver.C18.owns op then Driver.C18.handleUse op args
       else if op.startsWith "it." then Driver.C08.handle (op.drop 3).toString args
       else if op.startsWith "pi." then Driver.C12.handle (op.drop 3).toString args
       else if Driver.C19.owns op then Driver.C19.handle op args
